@@ -245,6 +245,16 @@ impl Run {
 	pub fn violation(&self, signature: &str, what: &str, replay: Value) {
 		let mut i = self.inner.lock().unwrap();
 		if i.violation_sigs.insert(signature.to_string()) {
+			if self.args.iter().any(|a| a == "--worker") {
+				// a worker reports a violation at once as well: if it dies later (a panic of the harness on
+				// the state the violation left behind, a monitor exit) the parent still has it
+				use std::io::Write;
+				let line = json!({"signature": signature, "what": what, "replay": replay});
+				let so = std::io::stdout();
+				let mut so = so.lock();
+				let _ = writeln!(so, "@@WORKER-VIOLATION {}", serde_json::to_string(&line).unwrap_or_default());
+				let _ = so.flush();
+			}
 			i.violations.push(Violation {
 				signature: signature.to_string(),
 				what: what.to_string(),
@@ -619,6 +629,11 @@ impl Run {
 			let err = he.join().unwrap_or_default();
 			let mut got = false;
 			for line in out.lines() {
+				if let Some(j) = line.strip_prefix("@@WORKER-VIOLATION ") {
+					if let Ok(v) = serde_json::from_str::<Value>(j) {
+						self.merge_worker(&json!({"violations": [v]}));
+					}
+				}
 				if let Some(j) = line.strip_prefix("@@WORKER-RESULT ") {
 					if let Ok(v) = serde_json::from_str::<Value>(j) {
 						self.merge_worker(&v);
